@@ -9,6 +9,8 @@ CONSTANTS
   MaxRandBig = 140000
   TocBytes <- Bytes
   B1s <- Bytes
+  Empties = TRUE
+  Bufs = {"fresh", "shared"}
   ChCfgs <- ChAll
   TagCfgs <- TagAll
   Rates <- RatesAll
